@@ -57,7 +57,23 @@ Fixpoint filter_map {A B} (f : A -> option B) (l : list A) : list B :=
   match l with [] => [] | x :: r => match f x with Some y => y :: filter_map f r | None => filter_map f r end end.
 
 (* ---- dimensions: hdf_write_xdr_cdf (dimension loop) / hdf_write_dim / hdf_read_dims ------------------------- *)
-Definition same_dim (a b : dimo) : bool := dname_eqb (d_name a) (d_name b) && (d_size a =? d_size b).
+(** NC_string's hash: the sum of the name's 4-byte words (little-endian host) *)
+Fixpoint hash_words (fuel : nat) (b : bytes) : Z :=
+  match fuel with
+  | O => 0
+  | S f => match b with [] => 0 | _ => le_unsigned (firstn 4 b) + hash_words f (skipn 4 b) end
+  end.
+Definition name_hash (n : dname) : Z :=
+  match n with
+  | DUser b => (hash_words (length b) b) mod 4294967296
+  | DFake k => (hash_words 7 FAKE_PREFIX + Z.of_nat k) mod 4294967296     (* stand-in: the digits are not rendered *)
+  end.
+(** the test of the write loop, "thash == *thashptr && tsize == *tsizeptr && NC_compare_string(A->name, B->name) == 0",
+    with A and B as the source has them (0 = the current entry, 1 = the earlier one; regenerated) *)
+Definition pick (i : Z) (cur prev : dimo) : dimo := if i =? 0 then cur else prev.
+Definition same_dim (cur prev : dimo) : bool :=
+  (name_hash (d_name cur) =? name_hash (d_name prev)) && (d_size cur =? d_size prev)
+  && dname_eqb (d_name (pick DEDUPE_CMP_L cur prev)) (d_name (pick DEDUPE_CMP_R cur prev)).
 (** "make sure we don't duplicate dimensions": an entry equal in name and size to an earlier entry is skipped *)
 Fixpoint dedupe_from (l seen : list dimo) : list dimo :=
   match l with
